@@ -392,7 +392,7 @@ def classify(S, d):
             if fr and fr[0] == "element_associated_groups" and "associated[index[0]]" in fr[1]:
                 return "assoc_groups_single_element_uses_group_index"
         return None
-    if op in ("attach", "attach_groups") and c.get("nan_rc_rows"):
+    if op in ("attach", "attach_groups", "replace") and c.get("nan_rc_rows"):
         # attach to an existing row whose stored reference_column is NaN (row created through concat) with
         # reference_columns=None: NaN != None -> the new members are converted to values of a reference column named nan
         if (gi, et) in c["nan_rc_rows"] or (code == "op_exception" and tb_last(real)):
@@ -1078,8 +1078,18 @@ def op_replace(S):
                 return "skip"
     refcol = {gi for gi in M if old_et in M[gi]["m"] and M[gi]["m"][old_et][0] is not None and
               (S.members(gi, old_et) & set(olds))} if k not in ("ward_int", "xward_int") else set()
-    S.ctx.update(old_et=old_et, new_et=new_et, refcol_groups=refcol)
     holders = {gi: S.members(gi, old_et) & set(olds) for gi in M}
+    if g.B(0.7) and normalise_nan_rc(net):
+        S.x["attach_nan_rc_normalised"] += 1
+    # the replace functions attach the new elements through attach_to_group: same NaN-vs-None defect
+    nan_rows = set()
+    for pos in range(len(net.group)):
+        gi_, et_ = py(net.group.index[pos]), net.group.element_type.iat[pos]
+        if et_ in new_ets and holders.get(gi_) and isinstance(net.group.reference_column.iat[pos], float):
+            nan_rows.add((gi_, et_))
+    S.ctx.update(old_et=old_et, new_et=new_et, refcol_groups=refcol, nan_rc_rows=nan_rows)
+    if nan_rows:
+        S.x["attach_nan_rc_row"] += 1
     names = {o: net[old_et].at[o, "name"] for o in olds}
     before_idx = {et: set(py(i) for i in net[et].index) for et in ALL_ETS}
     if k == "pq":
@@ -1366,7 +1376,7 @@ def op_as_net(S):
             break
 
 
-OPS = [("create", op_create, 14), ("attach", op_attach, 16), ("detach", op_detach, 14), ("drop_group", op_drop_group, 3),
+OPS = [("create", op_create, 10), ("attach", op_attach, 16), ("detach", op_detach, 14), ("drop_group", op_drop_group, 3),
        ("drop", op_drop, 12), ("fuse", op_fuse, 3), ("reindex", op_reindex, 10), ("replace", op_replace, 9), ("set_rc", op_set_rc, 7),
        ("set_value", op_set_value, 7), ("results", op_results, 3), ("copy_compare", op_copy_compare, 4), ("as_net", op_as_net, 2),
        ("drop_group_and_elements", op_drop_group_and_elements, 2)]
